@@ -89,6 +89,13 @@ CHECKS = {
             "added on the published rho grid, scores/counts equal the mean/length of each learner's own ledger, recommendation = next proposal of a best learner.",
             "rho_max >= 0.84 (finding D7 of C01 below that); ties between learners free.",
             "stateless bounded-exhaustive script enumeration of the implementation with recording learners against a routing/score ledger"),
+    "C15": ("model_checking", "3 C15",
+            "For the twelve listed algorithms x 3 partitions every reward sequence in {0,1,-1}^T is run in lock-step with shadow instances "
+            "that differ only in the time labels (t0 in {0,17}, 2i, i^2 vs 1+i) and must propose identical points and recommendations; for "
+            "T-HOO/HCT/VHCT/Zooming/POO a shadow receives get_last_point() 0/1/2 times after every round (every placement a choice point) and "
+            "must propose identical points there and in a 6-round continuation.",
+            "Shadows are fed the reference run's RNG answers; a different question counts as divergence. StoSOO/StroquOOL are outside the statement.",
+            "stateless bounded-exhaustive enumeration of reward sequences and query placements with lock-step differential (shadow) execution"),
 }
 
 LATER = {
